@@ -392,7 +392,28 @@ def datasetSortIndex (keys : List (List Int)) (index : Option (List Nat)) : Exce
       | none => List.range r0.length
     sortPasses (r0 :: rs) rawIndex
 
-/-- `validate_selected_keys` + lookup of the key columns; an indexed string key has no array to subscript (TypeError) -/
+/-- bytewise lexicographic order on byte strings (a proper prefix is smaller); numpy orders `str` by code point, which is
+    the order of the UTF-8 bytes -/
+def bytesLt : List Nat → List Nat → Bool
+  | [], [] => false
+  | [], _ :: _ => true
+  | _ :: _, [] => false
+  | a :: as, b :: bs => a < b || (a == b && bytesLt as bs)
+
+/-- the entries of an indexed string column: `values[indices[k] : indices[k+1]]` -/
+def entriesOf (indices values : List Nat) : List (List Nat) :=
+  (List.range (indices.length - 1)).map (fun k =>
+    (values.drop (indices.getD k 0)).take (indices.getD (k + 1) 0 - indices.getD k 0))
+
+/-- an order-isomorphic integer column for a string column: each entry's number of strictly smaller entries (equal strings
+    get equal numbers, smaller strings smaller numbers), so that the stable argsort passes see the same comparisons as
+    `np.argsort(np.asarray(list_of_str), kind='stable')` -/
+def rankKeys (es : List (List Nat)) : List Int :=
+  es.map (fun e => ((es.filter (fun d => bytesLt d e)).length : Int))
+
+/-- `validate_selected_keys` + lookup of the key columns. Since fix NC07b (`np.asarray(raw_data)` in
+    `Session.dataset_sort_index`) an indexed string key is sorted as an array of `str`; before it the fancy-indexing of the
+    python list raised TypeError. -/
 def keyColumns (sf : Frame) : List String → Except Err (List (List Int))
   | [] => .ok []
   | k :: ks =>
@@ -400,7 +421,10 @@ def keyColumns (sf : Frame) : List String → Except Err (List (List Int))
     | none => .error (.valueError "not an existing field")
     | some f =>
       match f.payload with
-      | .indexed _ _ => .error (.typeError "only integer scalar arrays can be converted to a scalar index")
+      | .indexed i vals =>
+        match keyColumns sf ks with
+        | .error e => .error e
+        | .ok r => .ok (rankKeys (entriesOf i vals) :: r)
       | .plain d =>
         match keyColumns sf ks with
         | .error e => .error e
